@@ -22,8 +22,11 @@ open Chewing Chewing.Persist
 
 /-! ## validity of what goes into the dictionary -/
 
-/-- `(syllables, phrase text)` as the Rust types constrain it: non-zero `u16` syllables, a `String` -/
-def ValidPK (pk : MapSpec.PKey) : Prop := (∀ s ∈ pk.1, 0 < s ∧ s < 65536) ∧ ∀ c ∈ pk.2, Der.IsScalar c
+/-- `(syllables, phrase text)` as the Rust types constrain it: `Syllable`s — non-zero `u16` codes that
+    `Syllable::try_from` accepts (`validCode`: the invariant of the type since the repair of C13's finding F47,
+    required by C11's `ValidEntry`) —, a `String` -/
+def ValidPK (pk : MapSpec.PKey) : Prop :=
+  (∀ s ∈ pk.1, 0 < s ∧ s < 65536 ∧ validCode s = true) ∧ ∀ c ∈ pk.2, Der.IsScalar c
 
 /-- `(freq : u32, last_used : u64)` -/
 def ValidVal (v : MapSpec.Val) : Prop := v.1 < 2 ^ 32 ∧ v.2 < 2 ^ 64
